@@ -44,9 +44,10 @@ Definition gprefix : guards := mkg false false false false false.
 Inductive kind := Agent | Origin.
 Record torrent := mkt { t_kind : kind; t_n : Z; t_p : Z; t_len : Z }.
 
-(* n >= 1 pieces of p >= 1 bytes, the last one of 1..p bytes *)
+(* n >= 1 pieces (a Go int) of p >= 1 bytes (piece lengths travel as int32), the last one of 1..p bytes *)
 Definition wf_torrent (t : torrent) : bool :=
-  (1 <=? t_n t) && (1 <=? t_p t) && (t_p t * (t_n t - 1) <? t_len t) && (t_len t <=? t_p t * t_n t).
+  (1 <=? t_n t) && (t_n t <? 2 ^ 63) && (1 <=? t_p t) && (t_p t <? 2 ^ 31) &&
+  (t_p t * (t_n t - 1) <? t_len t) && (t_len t <=? t_p t * t_n t).
 
 Definition in_range (t : torrent) (i : Z) : bool := (0 <=? i) && (i <? t_n t).
 
